@@ -368,7 +368,13 @@ class Kernel:
                 #
                 if result is not None:
                     result = repr(result)
-            except Exception as exc:
+            except (asyncio.CancelledError, KeyboardInterrupt, SystemExit):
+                raise
+            except BaseException as exc:  # pylint: disable=broad-except
+                #
+                # a cell can also raise exceptions that are not subclasses of Exception
+                # (eg, GeneratorExit); they are reported like any other
+                #
                 traceback_mesg = EvalExceptionFormatter(exc).format()
 
                 #
